@@ -156,8 +156,10 @@ CHECKS = {
              "previous observed state; the stronger 'has actually been asked' form and 'no manager panic' evaluated on the "
              "observed states with the task's piece tracked by the harness. Three genuine defects found and repaired.",
         note="The equality of the task's and the manager's choke flag and assigned piece per peer over all interleavings is proved for the "
-             "composition of task and manager (C12_flags_agree, PairProofs.v). Partial: 'no manager panic' is not proved in Coq (tested on "
-             "producible histories); the KillReq window after a task's death is not modelled. No axioms.",
+             "composition of task and manager (C12_flags_agree, PairProofs.v). 'No manager panic' is proved (C12_no_manager_panic) under the "
+             "well-formedness invariant WFm (C12_wf_preserved) for the commands tasks send (C12_task_commands_sendable: discharged for "
+             "the first command of an event in every reachable composition). Not modelled: the KillReq window after a task's death; "
+             "fire-and-forget commands are taken as handled before the task's next event. No axioms.",
         technique="Coq proof (invariant by induction over reachable states, counting lemmas) + per-step differential correspondence",
         design="2/C12"),
     "C13": dict(
